@@ -577,6 +577,19 @@ func (r *Request) SetBasicAuth(username, password string) {
 	r.Header.Set("Authorization", "Basic "+basicAuth(username, password))
 }
 
+// validToken reports whether s is an RFC 7230 token (1*tchar).
+func validToken(s string) bool {
+	if s == "" {
+		return false
+	}
+	for i := 0; i < len(s); i++ {
+		if !isToken(rune(s[i])) {
+			return false
+		}
+	}
+	return true
+}
+
 // parseRequestLine parses "GET /foo HTTP/1.1" into its three parts.
 func parseRequestLine(line string) (method, requestURI, proto string, ok bool) {
 	s1 := strings.Index(line, " ")
@@ -672,6 +685,13 @@ func ReadRequest(b *bfe_bufio.Reader, maxUriBytes int) (req *Request, err error)
 	mimeHeader, headerKeys, err := tp.ReadMIMEHeaderAndKeys()
 	if err != nil {
 		return nil, err
+	}
+	// RFC 7230 3.2: field-name = token.  textproto keeps names as received (spaces before
+	// the colon, other non-token bytes); such a request must be rejected, not forwarded.
+	for _, k := range headerKeys {
+		if !validToken(k) {
+			return nil, &badStringError{"invalid header field name", k}
+		}
 	}
 	req.Header = Header(mimeHeader)
 	req.HeaderKeys = headerKeys
